@@ -112,7 +112,7 @@ def run(ctx):
     if fn is None:
         return
     ctx.touch(fn, len(fn.blocks))
-    apps = fn.calls_to('Memvid::append_wal_entry')
+    apps = lib.op_calls(F, fn, ('Memvid::append_wal_entry',))
     ctx.floor('GUARD-C24b', len(apps), 2, 'WAL appends in put_internal')
     guard = None
 
